@@ -68,7 +68,10 @@ func newSchema(table string, master []sqliteMaster) (*Schema, error) {
 		return nil, errors.New("unsupported CREATE TABLE statement")
 	}
 
-	st := newCreateTable(ct)
+	st, err := newCreateTable(ct)
+	if err != nil {
+		return nil, err
+	}
 
 	for _, m := range master {
 		if m.typ == "index" && m.tblName == n && m.sql != "" {
@@ -86,7 +89,7 @@ func newSchema(table string, master []sqliteMaster) (*Schema, error) {
 
 // transform a `create table` statement into a Schema, which knows which
 // indexes are used
-func newCreateTable(ct sql.CreateTableStmt) *Schema {
+func newCreateTable(ct sql.CreateTableStmt) (*Schema, error) {
 	st := &Schema{
 		Table:        ct.Table,
 		WithoutRowid: ct.WithoutRowid,
@@ -155,6 +158,12 @@ constraint:
 	for _, c := range ct.Constraints {
 		switch c := c.(type) {
 		case sql.TablePrimaryKey:
+			for _, co := range c.IndexedColumns {
+				if st.column(co.Column) == nil {
+					// SQLite allows neither expressions nor unknown columns here
+					return nil, ErrInvalidDef
+				}
+			}
 			if !ct.WithoutRowid && len(c.IndexedColumns) == 1 {
 				// is this column an alias for the rowid?
 				col := st.column(c.IndexedColumns[0].Column)
@@ -184,7 +193,7 @@ constraint:
 		}
 	}
 
-	return st
+	return st, nil
 }
 
 // add `CREATE INDEX` statement to a table
